@@ -92,6 +92,8 @@ func StatePredicates(prefix string) {
 	// ---- reachability witnesses (vacuity guards)
 	verifrt.Region(prefix+"reach:tx1-committed", S.Txs[0].State == txCOMMITTED || S.Txs[0].State == txAPPLIED)
 	verifrt.Region(prefix+"reach:tx1-applied", S.Txs[0].State == txAPPLIED)
+	verifrt.Region(prefix+"reach:tx1-applied-alone", S.Txs[0].State == txAPPLIED && !S.Txs[NX-1].Exists)
+	verifrt.Region(prefix+"reach:tx1-committed-alone", S.Txs[0].State == txCOMMITTED && !S.Txs[NX-1].Exists)
 	verifrt.Region(prefix+"reach:tx1-failed", S.Txs[0].State == txFAILED)
 	verifrt.Region(prefix+"reach:tx1-failed-aborted", S.Txs[0].State == txFAILED && txTerminal(0) && !S.Txs[0].Apply.Present)
 	verifrt.Region(prefix+"reach:tx1-apply-failed", S.Txs[0].State == txFAILED && S.Txs[0].Apply.Present)
